@@ -64,6 +64,9 @@ def build_go():
             with open(sumsrc) as f, open(os.path.join(HARNESS, "go.sum"), "w") as g:
                 g.write(f.read())
         out_all = ""
+        if REPO != "/repo":
+            # an isolated run against a copy of the repository (VERIF_REPO): point the harness module at it
+            run(["go", "mod", "edit", "-replace", "github.com/ilius/libgostarcal=" + REPO], cwd=HARNESS, env=GOENV)
         for name in ("oracle", "extract"):
             rc, out = run(["go", "build", "-tags", "verif", "-o", os.path.join(BUILD, name), "./cmd/" + name],
                           cwd=HARNESS, env=GOENV, timeout=600)
